@@ -33,21 +33,24 @@ def gen_plan(seed, i, tier):
             t = rng.choice(types)
         init = synth.synth_init(rng.choice(synth.VERSIONS), t, rng.below(1 << 20), k=2)
     synth_init = 'synth' in init
+    swarm = edits.swarm_subset(rng)
     safe = ['AddNode', 'AddExtraData', 'AddLooseBlock', 'SetNodeName', 'SetNodeTransform', 'PrettySort', 'Optimize', 'DeleteUnreferenced', 'ReplaceWithClone', 'TrimTexturePaths', 'FixBSXFlags', 'FixShaderFlags']
     steps = []
     for _ in range(rng.range(0, 8)):
         if rng.chance(0.2):
             st = {'op': rng.choice(['Save', 'Restart']), 'raw': rng.chance(0.5)}
             if st['op'] == 'Save' and rng.chance(0.3):
-                st['pipe'] = True    # the file goes to a stream that cannot seek (pipe, socket, compressor)
+                st['pipe'] = True
+            if st['op'] == 'Restart' and rng.chance(0.3):
+                st['fail_first'] = rng.below(20000)   # a save attempt lost to a failing stream before the one that counts    # the file goes to a stream that cannot seek (pipe, socket, compressor)
             steps.append(st)
         else:
-            steps.append(edits.edit_step(rng, 'quick', version_hint=ver, allow=safe if synth_init else None))
+            steps.append(edits.edit_step(rng, 'quick', version_hint=ver, allow=safe if synth_init else swarm))
     return {'property': PROP, 'profile': 'writemon', 'run_index': i, 'init': init, 'steps': steps, 'final_raw': rng.chance(0.5), 'timeout_s': 60}
 
 
 def jobs(tier, seed, pool):
-    out = [{'plan': gen_plan(seed, i, tier), 'meta': {}} for i in range(2500 if tier == 'quick' else 40000)]
+    out = [{'plan': gen_plan(seed, i, tier), 'meta': {}} for i in range(6000 if tier == 'quick' else 60000)]
     for kind in ('in', 'exp'):
         for n, _ in inputs.sample_names(kind):
             for raw in (True, False):
